@@ -963,3 +963,178 @@ pub fn engine_trans(cases: Vec<Value>, out: &mut NdjsonOut) {
         env.cleanup();
     }
 }
+
+// ---------------------------------------------------------------------------------------------
+// cachediff (C04): after a history with cache faults, every read capability is evaluated twice:
+// with the caches as found and on a copy with continuity_streams/ removed (the code's own truth
+// path).  Every call runs under a watchdog: a call that does not return is a termination
+// violation.
+
+fn exec_with_watchdog(env: &Arc<StoreEnv>, op: &Value, secs: u64) -> Value {
+    let (tx, rx) = std::sync::mpsc::channel();
+    let env2 = env.clone();
+    let op2 = op.clone();
+    std::thread::spawn(move || {
+        let r = std::panic::catch_unwind(std::panic::AssertUnwindSafe(|| env2.exec(&op2)));
+        let _ = tx.send(match r {
+            Ok(v) => v,
+            Err(_) => json!({"ok": false, "ret": "PANIC", "panic": true}),
+        });
+    });
+    match rx.recv_timeout(Duration::from_secs(secs)) {
+        Ok(v) => v,
+        Err(_) => json!({"ok": false, "ret": "TIMEOUT", "timeout": true}),
+    }
+}
+
+fn read_queries(env: &StoreEnv) -> Vec<Value> {
+    let tcount = env.ids.lock().unwrap().threads.len();
+    let mut q = Vec::new();
+    for t in 0..tcount {
+        let frames = env.truth_frames(t);
+        if frames.is_empty() {
+            continue;
+        }
+        let msgs: Vec<u64> = frames
+            .iter()
+            .filter(|e| matches!(e.kind, rip_kernel::EventKind::ContinuityMessageAppended { .. }))
+            .map(|e| e.seq)
+            .collect();
+        q.extend(vec![
+            json!({"op": "replay", "t": t}),
+            json!({"op": "cut_points", "t": t, "stride": 1, "limit": 8}),
+            json!({"op": "cut_points", "t": t, "stride": 2, "limit": 3}),
+            json!({"op": "status", "t": t, "stride": 1}),
+            json!({"op": "status", "t": t, "stride": 2}),
+            json!({"op": "cursor_status", "t": t}),
+            json!({"op": "selection_status", "t": t}),
+            json!({"op": "selection_status", "t": t, "limit": 1}),
+            json!({"op": "auto", "t": t, "stride": 1, "max_new": 4, "dry_run": true}),
+            json!({"op": "schedule", "t": t, "stride": 2, "max_new": 2, "dry_run": true}),
+        ]);
+        if let (Some(first), Some(last)) = (msgs.first(), msgs.last()) {
+            q.push(json!({"op": "compile", "t": t, "m_seq": last, "s": 7}));
+            q.push(json!({"op": "compile", "t": t, "m_seq": first, "s": 7}));
+            if msgs.len() > 2 {
+                q.push(json!({"op": "compile", "t": t, "m_seq": msgs[msgs.len() / 2], "s": 7}));
+            }
+            // anchors whose 16-message window straddles a seek-index stride boundary (256 frames)
+            for m in msgs.iter().filter(|m| **m > 256 && **m < 275 && **m % 4 == 1) {
+                q.push(json!({"op": "compile", "t": t, "m_seq": m, "s": 7}));
+            }
+            q.push(json!({"op": "branch", "t": t, "from_msg_seq": first}));
+            q.push(json!({"op": "handoff", "t": t, "summary": "s"}));
+            q.push(json!({"op": "branch", "t": t, "from_seq": frames.len() as u64 / 2}));
+        }
+    }
+    q
+}
+
+fn scrub_for_diff(v: &mut Value) {
+    // fields that legitimately differ between two evaluations: ids of things created by the
+    // evaluation itself (new thread, bundle artifact), documented best-effort fields
+    match v {
+        Value::Object(o) => {
+            for k in ["inflight_job_id", "thread_id_new", "bundle_artifact_id"] {
+                o.remove(k);
+            }
+            for (_, x) in o.iter_mut() {
+                scrub_for_diff(x);
+            }
+        }
+        Value::Array(a) => a.iter_mut().for_each(scrub_for_diff),
+        _ => {}
+    }
+}
+
+pub fn differential(root: &Path, ids: crate::store::Ids, watchdog_s: u64) -> (Vec<Value>, usize, Vec<Value>) {
+    let copy_a = root.with_extension("da");
+    let copy_b = root.with_extension("db");
+    let _ = std::fs::remove_dir_all(&copy_a);
+    let _ = std::fs::remove_dir_all(&copy_b);
+    let _ = util::copy_dir(&root.join("data"), &copy_a.join("data"));
+    let _ = util::copy_dir(&root.join("ws"), &copy_a.join("ws"));
+    let _ = util::copy_dir(&root.join("data"), &copy_b.join("data"));
+    let _ = util::copy_dir(&root.join("ws"), &copy_b.join("ws"));
+    let _ = std::fs::remove_dir_all(copy_b.join("data/continuity_streams"));
+    let env_a = Arc::new(StoreEnv::reopen_at(copy_a.clone(), ids.clone()));
+    let env_b = Arc::new(StoreEnv::reopen_at(copy_b.clone(), ids));
+    let queries = read_queries(&env_b);
+    let mut diffs = Vec::new();
+    let mut hangs = Vec::new();
+    for q in &queries {
+        let mut a = exec_with_watchdog(&env_a, q, watchdog_s);
+        if a.get("timeout").is_some() || a.get("panic").is_some() {
+            hangs.push(json!({"query": q, "with_caches": a}));
+            continue;
+        }
+        // a truth-path read rebuilds the caches: remove them again before every call
+        let _ = std::fs::remove_dir_all(copy_b.join("data/continuity_streams"));
+        let mut b = exec_with_watchdog(&env_b, q, watchdog_s);
+        if b.get("timeout").is_some() || b.get("panic").is_some() {
+            hangs.push(json!({"query": q, "without_caches": b}));
+            continue;
+        }
+        // branch / handoff: compare the resolution only (the new thread id differs)
+        if matches!(q["op"].as_str(), Some("branch") | Some("handoff")) {
+            for x in [&mut a, &mut b] {
+                if let Some(o) = x["ret"].as_object_mut() {
+                    o.remove("thread_id");
+                }
+            }
+        }
+        if q["op"] == "compile" {
+            for x in [&mut a, &mut b] {
+                if let Some(o) = x["ret"].as_object_mut() {
+                    o.remove("bundle_artifact_id");
+                }
+            }
+        }
+        scrub_for_diff(&mut a);
+        scrub_for_diff(&mut b);
+        if a != b {
+            let norm = env_b.normalizer();
+            diffs.push(json!({"query": q, "with_caches": norm.norm(&a), "without": norm.norm(&b)}));
+        }
+    }
+    let n = queries.len();
+    drop(env_a);
+    drop(env_b);
+    let _ = std::fs::remove_dir_all(&copy_a);
+    let _ = std::fs::remove_dir_all(&copy_b);
+    (diffs, n, hangs)
+}
+
+pub fn engine_cachediff(cases: Vec<Value>, out: &mut NdjsonOut) {
+    let hub = hub();
+    for case in cases {
+        hub.reset();
+        let mut env = StoreEnv::fresh("cdiff");
+        let ops = case.get("ops").and_then(|o| o.as_array()).cloned().unwrap_or_default();
+        let eval_all = get_bool(&case, "eval_every_step").unwrap_or(false);
+        let eval_from = get_u64(&case, "eval_from").unwrap_or(0) as usize;
+        let watchdog = get_u64(&case, "watchdog_s").unwrap_or(10);
+        let mut evals = Vec::new();
+        for (i, op) in ops.iter().enumerate() {
+            if get_str(op, "op") == Some("restart") {
+                env.restart();
+            } else if get_str(op, "op") == Some("save_all_caches") {
+                let t = get_u64(op, "t").unwrap_or(0);
+                for (name, _) in crate::store::CACHE_FILES {
+                    env.exec(&json!({"op": "save_cache", "t": t, "file": name}));
+                }
+            } else {
+                env.exec(op);
+            }
+            let last = i + 1 == ops.len();
+            if last || (eval_all && i >= eval_from) {
+                let ids = env.ids.lock().unwrap().clone();
+                let (diffs, n, hangs) = differential(&env.root, ids, watchdog);
+                evals.push(json!({"after_op": i, "queries": n, "diffs": diffs, "hangs": hangs}));
+            }
+        }
+        let lag = cache_lag(&env);
+        out.write(&json!({"id": case["id"], "evals": evals, "cache_lag": lag}));
+        env.cleanup();
+    }
+}
